@@ -204,6 +204,9 @@ class Chk2pltT(tools.ToolCase):
         self.reactions = bool(src.draw("opt.reactions", 0, 1))
         self.floor = bool(src.draw("opt.floor", 0, 1))
         self.species = SPECIES[:self.c.nsp]
+        if src.flag("species.odd_names", 4):
+            # names that begin with characters of the field prefixes 'Y(' / 'I_R(' (iso-octane, peroxy radicals ...)
+            self.species = ["IC8H18", "RO2", "YO", "I2", "R_X", "H2O"][:self.c.nsp]
         self.ref = bool(src.draw("species.from_plotfile", 0, 1))
         self.ref_fields = "Y"
         if self.ref and src.flag("species.ref_IR", 4):
@@ -284,6 +287,15 @@ def run_case(ctx):
             # ... of a checkpoint that lived at the very same path (and was converted to the same place)
             first.opts = dict(t.opts)
             first.primary = t.primary
+        elif src.flag("earlier.rel_cwd", 3):
+            # ... of a checkpoint with the same RELATIVE name in another run directory, under FORK pools
+            # (workers that outlive a conversion keep the directory they were forked in)
+            if t.opts["in_form"] in ("abs", "abs/"):
+                t.opts["in_form"] = "rel"
+            first.opts = dict(t.opts)
+            first.primary = t.primary
+            ctx.fork_mode = True
+            ctx.probe("history.rel-cwd-fork")
         else:
             first.opts.update(in_form="abs", cwd="work", out="abs", cli=False)
         r0 = os.path.join(ctx.scratch, "run" if same_root else "earlier")
